@@ -172,8 +172,8 @@ check(
 check(
     "C05",
     "translation_validation",
-    "translation validation restricted to the int / bool / fixed-width fragment: for each function of a generated corpus (120 quick / 1500 thorough functions, <= 3 int parameters, expression trees to depth 3 with if/elif/else, conditional expressions, chained comparisons, and/or/not, augmented assignment, early return, literals) and of the one-operation corpus, the final IR of the real mypyc pipeline is executed symbolically next to the Python source itself on pysem proxies; z3 discharges per path, for ALL argument values (tagged words under the canonical-form invariant), that the compiled function returns the same value in canonical representation or raises the same exception type. Counterexamples are replayed by a real mypyc build.",
-    "trusted: z3; runtime helpers as contracts (vf/irsem.py), their fast paths verified in C15/K1; uninterpreted bitwise/pow2 functions shared by both sides; stops at the IR (C emission, optimisation levels, build modes not modelled); objects/containers/classes/generators outside",
+    "translation validation restricted to the int / bool / fixed-width fragment: for each function of a generated corpus (120 quick / 1500 thorough functions, <= 3 int parameters, expression trees to depth 3 with if/elif/else, conditional expressions, chained comparisons, and/or/not, augmented assignment, early return, literals; a second family with for/while loops, break/continue and symbolic trip counts) and of the one-operation corpus, the final IR of the real mypyc pipeline is executed symbolically next to the Python source itself on pysem proxies; z3 discharges per path, for ALL argument values (tagged words under the canonical-form invariant), that the compiled function returns the same value in canonical representation or raises the same exception type. Counterexamples are replayed by a real mypyc build. (K-slots) the C slot wrappers the real emitwrapper generators emit for __hash__/__len__/__bool__/__contains__ of a native class are compiled with clang to LLVM IR and checked with z3 against CPython's slot protocol under an explicit model of the error indicator: -1 exactly when an exception is left set, values passed on exactly, hash -1 -> -2, big hashes reduced, negative lengths rejected.",
+    "trusted: z3; runtime helpers as contracts (vf/irsem.py), their fast paths verified in C15/K1; uninterpreted bitwise/pow2 functions shared by both sides; C emission other than the four slot wrappers, optimisation levels and build modes not modelled; objects/containers/classes/generators outside",
     "translation validation of compiler IR against source semantics with z3 (symbolic execution of both sides, all inputs)",
     "DESIGN.md 4/C05",
     engine="mypycir",
